@@ -8,8 +8,9 @@ const char* RULE =
     "diagonal GammaRho and source, scalar decay with constant source; closed-form piecewise propagation in absolute time): Evolve(dt>=0) incl. "
     "dt=0, toggling each term switch and AnyNumerics, changing stepper / adaptive / step count / tolerances / h, move-construction into a new "
     "object (old one destroyed or kept), move-assignment into a default-constructed or an initialised object, re-initialisation with a new "
-    "shape and initial time. Oracle: model clock t_ini + sum dt vs Get_t; state vs the piecewise exact propagation with the terms active in each "
-    "segment (1e-6 (1+|state|) per numerical segment); with all numerics off the whole state is bit-identical before/after while the clock "
+    "shape and initial time, tolerances changed independently (a loose segment is followed by a resynchronisation of the model). Oracle: bit-identity with a "
+    "twin object that receives the same settings and Evolve calls but is never moved; model clock t_ini + sum dt vs Get_t; state vs the piecewise exact propagation with the terms active in each "
+    "segment (2e-7 (1+|state|) per tight numerical segment); with all numerics off the whole state is bit-identical before/after while the clock "
     "advances and the last PreDerive argument equals the new time; after every Evolve each estate rho has the same element-0 address as the state "
     "rho and the scalar pointers coincide; after a move all callbacks arrive on the new object and the old one can be destroyed; after "
     "re-initialisation Get_t()==Get_t_initial()==ti. Non-trivial: at least two numerical Evolve calls with a toggle, move or re-initialisation "
@@ -50,6 +51,12 @@ void run_case(ByteSource& s, CaseInfo& ci) {
   int stepper = 2; bool adaptive = true; unsigned nsteps = 100;
   S->Set_GSL_step(STEPPERS[stepper]); S->Set_rel_error(1e-10); S->Set_abs_error(1e-10); S->Set_h(1e-4); S->Set_h_max(0.05);
   init_states(s, *P, *S, m);
+  // a twin that receives the same settings and Evolve calls but is never moved: results must be bit-identical to it
+  std::unique_ptr<TSolver> T(new TSolver(*P));
+  auto copy_state_to_twin = [&]() { for (int ix = 0; ix < P->nx; ix++) { for (int ir = 0; ir < P->nr; ir++) for (int k = 0; k < P->d * P->d; k++) T->rho(ix, ir)[k] = S->rho(ix, ir)[k]; for (int is = 0; is < P->ns; is++) T->scalar(ix, is) = S->scalar(ix, is); } };
+  T->set_mask(mask, 0); T->Set_GSL_step(STEPPERS[stepper]); T->Set_rel_error(1e-10); T->Set_abs_error(1e-10); T->Set_h(1e-4); T->Set_h_max(0.05);
+  copy_state_to_twin();
+  double cur_rel = 1e-10, cur_abs = 1e-10;
   std::string hist = fmt("[nx=%d d=%d nr=%d ns=%d t_ini=%.6g mask=%u] ", P->nx, P->d, P->nr, P->ns, P->t_ini, mask);
   int numeric_evolves = 0, events_between = 0; bool nontrivial = false;
   int nstep = 2 + (int)s.choose(11);
@@ -81,14 +88,24 @@ void run_case(ByteSource& s, CaseInfo& ci) {
       long pd0 = S->log.prederive_calls;
       hist += fmt("Evolve(%.6g)%s ", dt, eff ? "" : "[no numerics]");
       if (!adaptive) { nsteps = fixed_steps(stepper, std::max(dt, 1e-3)); S->Set_NumSteps(nsteps); }
-      try { S->Evolve(dt); }
+      if (!adaptive) T->Set_NumSteps(nsteps);
+      double tprev = S->Get_t();
+      try { S->Evolve(dt); T->Evolve(dt); }
       catch (const std::exception& e) { throw Fail(fmt("C10|Evolve|throws|%s-%s|dt%s0", STEPPER_NAMES[stepper], adaptive ? "adaptive" : "fixed", dt == 0 ? "=" : ">"), fmt("exception '%s' :: %s", e.what(), hist.c_str())); }
-      double t0 = m.clock; m.clock = t0 + dt; m.evolves++;
+      for (int ix = 0; ix < P->nx; ix++) {
+        for (int ir = 0; ir < P->nr; ir++) for (int k = 0; k < P->d * P->d; k++) CHECK(bit_equal(S->rho(ix, ir)[k], T->rho(ix, ir)[k]), "C10|differs-from-never-moved-twin", "node %d matrix %d slot %d: %.17g vs twin %.17g :: %s", ix, ir, k, S->rho(ix, ir)[k], T->rho(ix, ir)[k], hist.c_str());
+        for (int is = 0; is < P->ns; is++) CHECK(bit_equal(S->scalar(ix, is), T->scalar(ix, is)), "C10|scalar-differs-from-never-moved-twin", "node %d scalar %d: %.17g vs twin %.17g :: %s", ix, is, S->scalar(ix, is), T->scalar(ix, is), hist.c_str());
+      }
+      CHECK(bit_equal(S->Get_t(), T->Get_t()), "C10|clock-differs-from-never-moved-twin", "%.17g vs %.17g :: %s", S->Get_t(), T->Get_t(), hist.c_str());
+      bool loose = cur_rel > 1e-9 || cur_abs > 1e-9;
+      // the model clock (t_ini + sum dt) is compared with Get_t separately; the propagation interval is the one the library
+      // itself reports, because fixed stepping accumulates n roundings in t
+      double t0 = tprev; m.clock = m.clock + dt; m.evolves++;
       if (eff && !adaptive) m.fixed_ulps += (int)nsteps;
       ld t1 = (ld)S->Get_t();
       if (eff) {
         for (int ix = 0; ix < P->nx; ix++) { for (int ir = 0; ir < P->nr; ir++) m.r[ix][ir] = P->exact_rho(ix, ir, m.r[ix][ir], (ld)t0, t1, eff); for (int is = 0; is < P->ns; is++) m.s[ix][is] = P->exact_scalar(ix, is, m.s[ix][is], (ld)t0, t1, eff); }
-        if (dt > 0) { m.tol_r += 1e-6L; m.tol_s += 1e-6L; numeric_evolves++; if (numeric_evolves >= 2 && events_between > 0) nontrivial = true; events_between = 0; }
+        if (dt > 0) { m.tol_r += loose ? 3e-2L : 2e-7L; m.tol_s += loose ? 3e-2L : 2e-7L; numeric_evolves++; if (numeric_evolves >= 2 && events_between > 0) nontrivial = true; events_between = 0; }
       } else {
         size_t q = 0;
         for (int ix = 0; ix < P->nx; ix++) {
@@ -105,17 +122,28 @@ void run_case(ByteSource& s, CaseInfo& ci) {
         if (P->ns > 0) CHECK(S->escalar_ptr(ix) == S->scalar_ptr(ix), "C10|estate-scalars-not-realiased", "node %d :: %s", ix, hist.c_str());
       }
       check_state("Evolve");
+      if (eff && loose && dt > 0) {  // a deliberately loose segment: continue from the library's own state so that later tight segments are judged on their own
+        for (int ix = 0; ix < P->nx; ix++) { for (int ir = 0; ir < P->nr; ir++) m.r[ix][ir] = toM(S->rho(ix, ir)); for (int is = 0; is < P->ns; is++) m.s[ix][is] = S->scalar(ix, is); }
+        m.tol_r = m.tol_s = 0; ci.label("loose-segment-resync");
+      }
     } else if (op == 4) {  // toggle one switch
       unsigned bit = 1u << s.choose(5); mask ^= bit; S->set_one(bit, (mask & bit) != 0); if (!any) S->Set_AnyNumerics(false);  // only that switch's setter is called
+      T->set_one(bit, (mask & bit) != 0); if (!any) T->Set_AnyNumerics(false);
       hist += fmt("mask=%u ", mask); events_between++;
     } else if (op == 5) {  // AnyNumerics
-      any = !any; if (any) S->set_mask(mask, s.choose(120)); else S->Set_AnyNumerics(false);
+      any = !any; if (any) { S->set_mask(mask, s.choose(120)); T->set_mask(mask, 0); } else { S->Set_AnyNumerics(false); T->Set_AnyNumerics(false); }
       hist += fmt("AnyNumerics=%d ", (int)any); events_between++;
     } else if (op == 6) {  // numerics settings
       stepper = (int)s.choose(6); adaptive = stepper == 5 ? true : s.flag();
       S->Set_GSL_step(STEPPERS[stepper]); S->Set_AdaptiveStep(adaptive);
-      double tolv = s.flag() ? 1e-10 : 1e-11; S->Set_rel_error(tolv); S->Set_abs_error(tolv); S->Set_h(s.flag() ? 1e-4 : 1e-3);
-      hist += fmt("stepper=%s/%s ", STEPPER_NAMES[stepper], adaptive ? "adaptive" : "fixed"); events_between++;
+      T->Set_GSL_step(STEPPERS[stepper]); T->Set_AdaptiveStep(adaptive);
+      // tolerances change independently of each other; a loose one (1e-4) marks the following segments as loose
+      static const double rels[] = {1e-10, 1e-11, 1e-4}, abss[] = {1e-10, 1e-12, 1e-4};
+      unsigned which = s.choose(4);
+      if (which == 0 || which == 2) { cur_rel = rels[s.choose(3)]; S->Set_rel_error(cur_rel); T->Set_rel_error(cur_rel); }
+      if (which == 1 || which == 2) { cur_abs = abss[s.choose(3)]; S->Set_abs_error(cur_abs); T->Set_abs_error(cur_abs); }
+      double hh = s.flag() ? 1e-4 : 1e-3; S->Set_h(hh); T->Set_h(hh);
+      hist += fmt("stepper=%s/%s rel=%g abs=%g ", STEPPER_NAMES[stepper], adaptive ? "adaptive" : "fixed", cur_rel, cur_abs); events_between++;
     } else if (op == 7) {  // move construction
       std::unique_ptr<TSolver> n(new TSolver(std::move(*S)));
       if (s.flag()) { graveyard = std::move(S); hist += "move-construct(old kept) "; } else { S.reset(); hist += "move-construct(old destroyed) "; }
@@ -134,6 +162,7 @@ void run_case(ByteSource& s, CaseInfo& ci) {
       P = problems.back().get();
       S->reinit(*P);
       init_states(s, *P, *S, m);
+      T->reinit(*P); copy_state_to_twin();
       hist += fmt("reinit[nx=%d d=%d nr=%d ns=%d t_ini=%.6g] ", P->nx, P->d, P->nr, P->ns, P->t_ini); events_between++;
       CHECK(S->Get_t() == P->t_ini && S->Get_t_initial() == P->t_ini, "C10|reinit|clock-not-fresh", "Get_t=%.17g Get_t_initial=%.17g ti=%.17g :: %s", S->Get_t(), S->Get_t_initial(), P->t_ini, hist.c_str());
       check_state("reinit");
